@@ -42,6 +42,7 @@ type Ctx struct {
 	Trace  *bufio.Writer
 	Rep    *Report
 	Replay string
+	MarkFile string
 	seen   map[string]struct{}
 }
 
@@ -51,6 +52,17 @@ func (c *Ctx) Line(format string, a ...interface{}) {
 }
 
 func (c *Ctx) Count(k string) { c.Rep.Dist[k]++ }
+
+// Mark records (in a side file, flushed at once) the case that is about to run, so that a crash of the
+// whole process - a panic in a goroutine of the code under test cannot be recovered here - still
+// yields a replayable case description.
+func (c *Ctx) Mark(v interface{}) {
+	if c.MarkFile == "" {
+		return
+	}
+	b, _ := json.Marshal(v)
+	os.WriteFile(c.MarkFile, b, 0o644)
+}
 
 // Distinct records a canonical description of a non-trivial case; counted once.
 func (c *Ctx) Distinct(k string) {
@@ -113,7 +125,11 @@ func main() {
 		dn, _ := os.OpenFile(os.DevNull, os.O_WRONLY, 0)
 		w = bufio.NewWriter(dn)
 	}
-	c := &Ctx{Tier: *tier, Seed: *seed, Rnd: rand.New(rand.NewSource(*seed)), Trace: w, Replay: *replay,
+	mark := ""
+	if *trace != "" {
+		mark = *trace + ".mark"
+	}
+	c := &Ctx{Tier: *tier, Seed: *seed, Rnd: rand.New(rand.NewSource(*seed)), Trace: w, Replay: *replay, MarkFile: mark,
 		Rep: &Report{Section: name, Tier: *tier, Seed: *seed, Dist: map[string]int{}, Extra: map[string]interface{}{}},
 		seen: map[string]struct{}{}}
 	err := f(c)
